@@ -228,8 +228,15 @@ func runConcCase(c *fw.Ctx, r *fw.Rand, in concInput, id string) {
 		if cur.Hash() != oldHead.Hash() {
 			x = u.tree.ByHash[cur.Hash()].Block
 		}
-		after := u.waitHead(x)
+		after, followed := u.waitHead(x, true)
 		if after == nil {
+			q.dead = true
+			break
+		}
+		if !followed {
+			if !u.tree.IsAncestor(oldHead, x) {
+				u.checkReorg(s0, after, oldHead, x, submitted, nil)
+			}
 			q.dead = true
 			break
 		}
